@@ -124,11 +124,17 @@ func mayPanic(ins ssa.Instruction, mutex *ssa.Global) (bool, string) {
 }
 
 func analyseLock(fn *ssa.Function, mutex *ssa.Global) *lockResult {
+	return analyseLockFrom(fn, mutex, lsU)
+}
+
+// analyseLockFrom runs the lockset dataflow with the given state at entry (lsLD for an unexported
+// helper that every caller calls with the mutex held: held, and released by someone else).
+func analyseLockFrom(fn *ssa.Function, mutex *ssa.Global, entry lockState) *lockResult {
 	res := &lockResult{fn: fn, mutex: mutex, at: map[ssa.Instruction]lockState{}}
 	if len(fn.Blocks) == 0 {
 		return res
 	}
-	in := map[*ssa.BasicBlock]lockState{fn.Blocks[0]: lsU}
+	in := map[*ssa.BasicBlock]lockState{fn.Blocks[0]: entry}
 	work := []*ssa.BasicBlock{fn.Blocks[0]}
 	visited := map[*ssa.BasicBlock]bool{}
 	reported := map[string]bool{}
